@@ -112,3 +112,30 @@ func vfRemoved(h *Host) bool {
 		return false
 	}
 }
+
+// VfC15_MarkVsRemove: a health mark racing with the removal (or replacement) of the same host
+// never leaves a removed host among the usable hosts.
+func VfC15_MarkVsRemove() {
+	nd.VisibleAtomics(true)
+	h := New(vfAddrs[0])
+	other := New(vfAddrs[1])
+	set := NewSet(h, other)
+	set.MarkHostUnhealthy(h)
+	replace := nd.Bool("replace")
+	go func() { set.MarkHostHealthy(h) }()
+	go func() {
+		if replace {
+			set.Add(New(vfAddrs[0])) // the address is announced again: new object
+		} else {
+			set.Remove(New(vfAddrs[0]))
+		}
+	}()
+	go func() { _ = set.Healthy() }() // a reader
+	nd.Quiesce()
+	for _, g := range set.Healthy() {
+		nd.Assert(!vfRemoved(g), "a removed host is never reported as usable, whatever the interleaving of mark and removal")
+		nd.Assert(g != h || !replace, "a replaced host object is not reported")
+	}
+	nd.Assert(vfRemoved(h), "the removed (or replaced) member is signalled")
+	nd.Cover("raced")
+}
